@@ -13,7 +13,7 @@ from vlib.cli import run_cli
 
 ID = 'C18'
 LEVEL = 'exploration'
-RULE = ('Generated histories (model-based, 5..25 steps) over a fresh copy of a synthetic database directory whose genome file is put into a drawn valid SQLite configuration (default rollback journal, WAL, PERSIST, other page size, user_version). Steps: CLI query (files / list '
+RULE = ('Generated histories (model-based, 5..25 steps) over a fresh copy of a synthetic database directory whose genome file is put into a drawn valid SQLite configuration (default rollback journal, WAL, PERSIST, other page size, user_version, older table layout without the optional extra columns, additional tables / indices / views). Steps: CLI query (files / list '
         '/ -s; csv / json / archive; --strict), dist --use-db, dist with mismatching parameters (fails), signatures info -d (plain / -j / '
         '-i / -jp), signatures create --db-params, tree, commands with bad arguments or missing files; library: ReferenceDatabase.load_from_dir '
         '+ query() (optionally left open across steps), load_genomeset / file_sessionmaker default session followed by an ORM edit (change '
@@ -62,6 +62,15 @@ def run_case(case, ctx):
 		elif mode == 'vacuum_pagesize':
 			con.execute('PRAGMA page_size=1024')
 			con.execute('VACUUM')
+		elif mode == 'old_layout':
+			# an older table layout: the optional, never-read `extra` columns are absent
+			con.execute('ALTER TABLE taxa DROP COLUMN extra')
+			con.execute('ALTER TABLE genomes DROP COLUMN extra')
+		elif mode == 'extra_objects':
+			con.execute('CREATE TABLE alembic_version (version_num VARCHAR(32) NOT NULL)')
+			con.execute("INSERT INTO alembic_version VALUES ('abc123')")
+			con.execute('CREATE INDEX ix_verif_taxa_rank_name ON taxa (rank, name)')
+			con.execute('CREATE VIEW verif_view AS SELECT key FROM genomes')
 		elif mode == 'user_version':
 			con.execute('PRAGMA user_version=7')
 			con.execute('PRAGMA application_id=42')
@@ -328,7 +337,7 @@ STEP = st.one_of(
 def gen_case(draw, tier):
 	w = draw(Wd.world(max_refs=4, min_refs=2, max_queries=3, min_queries=2, nasty_names=False))
 	steps = draw(st.lists(STEP, min_size=5, max_size=25))
-	return {'kind': 'history', 'world': w, 'steps': steps, 'gdb_mode': draw(st.sampled_from(['default', 'wal', 'default', 'persist', 'vacuum_pagesize', 'wal', 'user_version']))}
+	return {'kind': 'history', 'world': w, 'steps': steps, 'gdb_mode': draw(st.sampled_from(['default', 'wal', 'default', 'persist', 'vacuum_pagesize', 'wal', 'user_version', 'old_layout', 'extra_objects']))}
 
 
 def strategy(tier):
